@@ -197,13 +197,19 @@ class Transaction:
         return None
 
     @staticmethod
-    def _schema_signature(schema: Schema) -> Set[Any]:
-        """Comparable signature of a schema's fields (name, type, required)."""
-        sig = set()
+    def _schema_signature(schema: Schema) -> List[Any]:
+        """Comparable signature of a schema's fields: (id, name, type, required)
+        per field, IN FIELD ORDER.
+
+        Order matters because parquet files written with reordered columns do
+        not concatenate with the table's; ids matter because column statistics
+        and file pruning are keyed by field id.
+        """
+        sig = []
         for f in schema.fields:
             f_type = f.get("type")
             type_key = json.dumps(f_type, sort_keys=True) if isinstance(f_type, (dict, list)) else f_type
-            sig.add((f.get("name"), type_key, bool(f.get("required", False))))
+            sig.append((f.get("id"), f.get("name"), type_key, bool(f.get("required", False))))
         return sig
 
     def _validate_schema_against_table(self, schema: Schema) -> None:
